@@ -12,7 +12,7 @@ PRIV_SHARDS = {'A/10', 'A/12', 'A/14', 'A/16', 'A/32', 'A/36', 'A/1b', 'A/25', '
 SCR_SYM = {'scr': 0x31, 'nsacr': 0x3FFF, 'cpacr': 0x0FFFFFFF}  # SCR.NS, FW, AW; coprocessor access controls
 
 
-UNPRIV_QUICK = ['LdrhtA1', 'StrhtA1', 'LdrbtA1', 'StrbtT1']  # (word forms LDRT/STRT: thorough tier -- 4 byte-wise translations per unaligned access, > 6 min per unit)
+UNPRIV_QUICK = ['StrhtA1', 'LdrbtA1', 'StrbtT1', 'StrbtA1']  # (word forms LDRT/STRT: thorough tier -- 4 byte-wise translations per unaligned access, > 6 min per unit)
 UNPRIV_ALL = ['LdrtA1', 'LdrtA2', 'StrtA1', 'StrtA2', 'LdrbtA1', 'LdrbtA2', 'StrbtA1', 'StrbtA2', 'LdrtT1', 'LdrbtT1',
               'StrtT1', 'StrbtT1', 'LdrhtA1', 'LdrhtA2', 'StrhtA1', 'StrhtA2', 'LdrsbtA1', 'LdrsbtA2', 'LdrshtA1',
               'LdrshtA2', 'LdrhtT1', 'LdrsbtT1', 'LdrshtT1', 'StrhtT1']
